@@ -46,6 +46,11 @@ fn main() {
     let nrec = records.len();
     sink.merge(struct_sweep(&run, &targets, &records, run.tier.pick(1, 2), &sfx, 48, &extra));
 
+    for style in [1u8, 3, 4] {
+        use vcommon::en::with_fill_style as wfs;
+        sink.merge(struct_sweep(&run, &targets, &wfs(style, || cat::tls_records(2, false)), 0, &sfx, 48, &extra));
+    }
+
     // (2) all 256 content types, a few payloads each; record versions
     let mut sweeps: Vec<vcommon::en::W> = Vec::new();
     for ty in 0..=255u8 {
